@@ -2,10 +2,12 @@
 //! C38 (protobuf decoder), C34 (tensor file formats), C21 (external data),
 //! C05 (model loading).
 
+mod c05;
 mod c21;
 mod c34;
 mod c38;
 mod drv;
+mod fbw;
 mod gens;
 mod pbref;
 mod seeds;
@@ -23,6 +25,7 @@ fn main() {
             "c38" => c38::worker(),
             "c34" => c34::worker(),
             "c21" => c21::worker(),
+            "c05" => c05::worker(),
             _ => vp_core::machinery_error("unknown worker"),
         }
     }
@@ -31,6 +34,7 @@ fn main() {
         "C38" => c38::run(vp_core::Ctx::from_env("C38")),
         "C34" => c34::run(vp_core::Ctx::from_env("C34")),
         "C21" => c21::run(vp_core::Ctx::from_env("C21")),
+        "C05" => c05::run(vp_core::Ctx::from_env("C05")),
         _ => vp_core::machinery_error("unknown property (mc-bytes serves C38 C34 C21 C05)"),
     }
 }
